@@ -478,6 +478,16 @@ def search(ctx, subject, strategy, check, n, max_causes=4):
             return
         except hypothesis.errors.HypothesisException as e:
             raise HarnessError("hypothesis error in %s/%s: %r" % (ctx.prop, subject, e))
+        except Exception as e:  # noqa
+            # anything else comes out of Hypothesis itself (seen: the shrinker's ordering of text choices raising
+            # ValueError for a non-ASCII character).  If the oracle had already failed on a generated case,
+            # that failure stands: report it with the last failing case (not fully shrunk).
+            if "v" not in last:
+                raise
+            v0 = last["v"]
+            if not ctx.handle(subject, last["case"], v0):
+                ctx.violation(subject, last["case"], Violation(v0.kind, dict(v0.detail, note="shrinking aborted: %r" % (e,))))
+            return
 
 
 def run_one(ctx, subject, case, check):
